@@ -1028,10 +1028,84 @@ def reader_file_wf(F: Node):
     return out + [(l, f(F)) for l, f in NAMING]
 
 
-# The content clauses of the reader (names = fhas, values = fval) are DESIGNED but not proved yet: their inv_pres obligations need the
-# staged decode argument (comprehension witness -> POS injectivity -> filtered-rank lemma -> rank congruence); they stay switched off
-# so that nothing unproved is claimed.  What is proved: the INDEX level (points in index order) and the absence of any exception.
-READER_CONTENT_CLAUSES = False
+# The content clauses of the reader (names = fhas, values = fval): proved by a STAGED decode argument written as ghost assertions
+# (``c11_asserts``: each one is a proof obligation, then a hypothesis) right before ``scalar_dict.update(..)`` and ``database.store(..)``:
+# comprehension witness -> dataset name is a position -> POS injectivity (arrays); kept positions = scalar positions -> filtered-rank
+# lemma -> rank congruence -> position in v/<k> (scalars); then the merged dictionary is exactly (fhas, fval) of point k.
+import os as _os  # noqa: E402
+
+READER_CONTENT_CLAUSES = _os.environ.get("C11_READER_CONTENT", "1") == "1"  # ON: proved through the staged ghost assertions below (C11_READER_CONTENT=0 switches the clauses off)
+
+
+def _rd(c):
+    """Terms of one reader iteration (point k = raw_index): file view, the comprehension dict of arrays, the dict of scalars."""
+    F = Node.of_ghost(c, "old")
+    k = c.locals["raw_index"]
+    NA, SD = c.locals["names_to_arrays"], c.locals["scalar_dict"]
+    inner = F.VAv[aname(k)]
+    return F, k, NA, SD, AG.acc(3)(inner), AG.acc(4)(inner)
+
+
+def _na_mem(NA, nm):
+    return NA.member[nm]
+
+
+def _stage_update(c):
+    """Ghost assertions (proved, then usable) right before ``scalar_dict.update(names_to_arrays)``: the two partial dictionaries
+    decode the array names / the scalar names of point k."""
+    F, k, NA, SD, dkeys, dpos = _rd(c)
+    nm, j = z3.Const("nm!su", StrS), z3.Int("j!su")
+    p = F.pos(k, nm)
+    nn = F.nn(k)
+    out = []
+    na_obj = NA.obj
+    if na_obj.keys is not None and not na_obj.is_empty_literal:
+        t = NA.pos[nm]
+        dk, ip = dkeys[t], ios(dkeys[t])
+        dn = AG.acc(2)(F.VAv[aname(k)])
+        tp = dpos[sidx(p)]
+        L = lambda f: z3.ForAll([nm], z3.Implies(NA.member[nm], f))  # noqa: E731
+        Cp = lambda f: z3.ForAll([nm], z3.Implies(z3.And(F.fhas(k, nm), F.isarr(k, p)), f))  # noqa: E731
+        out += [("arrays:listed:1-position-in-the-comprehension", L(z3.And(0 <= t, t < NA.n, NA.keys[t] == nm, F.has_agrp(k), F.amem(k)[dk]))),
+                ("arrays:listed:2-dataset-name-is-a-position", L(z3.And(dk == sidx(ip), 0 <= ip, ip < nn, F.name(k, ip) == nm))),
+                ("arrays:listed:3-decoded", L(z3.And(p == ip, F.fhas(k, nm), F.isarr(k, p), NA.vals[nm] == F.arrval(k, p)))),
+                ("arrays:complete:1-dataset-is-enumerated", Cp(z3.And(0 <= tp, tp < dn, dkeys[tp] == sidx(p)))),
+                ("arrays:complete:2-its-name", Cp(NA.keys[tp] == nm)),
+                ("arrays:complete:3-member", Cp(NA.member[nm]))]
+    else:
+        out += [("arrays:none", z3.ForAll([nm], z3.Not(z3.And(F.fhas(k, nm), F.isarr(k, p)))))]
+    flt = c.st.ghost.get("h5_filtered", [])
+    sd_obj = SD.obj
+    if flt and getattr(sd_obj, "pair_wit", None) is not None:
+        P, src, dst, nf = flt[-1]
+        wit = sd_obj.pair_wit
+        r = wit[nm]
+        SCk = F.SC[k]
+        Sc = lambda f: z3.ForAll([nm], z3.Implies(z3.And(F.fhas(k, nm), z3.Not(F.isarr(k, p))), f))  # noqa: E731
+        out += [("kept-positions-are-the-scalar-positions", z3.ForAll([j], z3.Implies(z3.And(0 <= j, j < nn), P[j] == SCk[j]))),
+                ("scalars:rank-of-a-listed-position", z3.ForAll([nm], z3.Implies(F.fhas(k, nm), z3.And(rank(P, p) == rank(SCk, p), rank(SCk, p + 1) == rank(SCk, p) + z3.If(SCk[p], 1, 0),
+                                                                                                      0 <= rank(SCk, p), rank(SCk, p + 1) <= rank(SCk, nn))))),
+                ("scalars:listed", z3.ForAll([nm], z3.Implies(SD.member[nm], z3.And(0 <= r, 0 <= src[r], F.name(k, src[r]) == nm, P[src[r]], dst[src[r]] == r, F.fhas(k, nm), z3.Not(F.isarr(k, p)),
+                                                                                   rank(P, p) == rank(SCk, p), SD.vals[nm] == F.scal(k, rank(SCk, p)))))),
+                ("scalars:complete:1-kept", Sc(z3.And(P[p], 0 <= dst[p], dst[p] < nf, src[dst[p]] == p))),
+                ("scalars:complete:2-rank", Sc(z3.And(dst[p] == rank(SCk, p), rank(SCk, p) < F.scal_n(k)))),
+                ("scalars:complete:3-member", Sc(SD.member[nm]))]
+    else:
+        SCk = F.SC[k]
+        out += [("scalars:rank-of-a-listed-position", z3.ForAll([nm], z3.Implies(F.fhas(k, nm), z3.And(rank(SCk, p + 1) == rank(SCk, p) + z3.If(SCk[p], 1, 0),
+                                                                                                      0 <= rank(SCk, p), rank(SCk, p + 1) <= rank(SCk, nn))))),
+                ("scalars:none", z3.ForAll([nm], z3.Not(z3.And(F.fhas(k, nm), z3.Not(F.isarr(k, p))))))]
+    return out if READER_CONTENT_CLAUSES else []
+
+
+def _stage_store(c):
+    """... and right before ``database.store``: the merged dictionary is exactly the decoded point k."""
+    F, k, NA, SD, dkeys, dpos = _rd(c)
+    nm = z3.Const("nm!ss", StrS)
+    if not READER_CONTENT_CLAUSES:
+        return []
+    return [("point:names", z3.ForAll([nm], SD.member[nm] == F.fhas(k, nm))),
+            ("point:values", z3.ForAll([nm], z3.Implies(F.fhas(k, nm), SD.vals[nm] == F.fval(k, nm))))]
 
 
 def _reader_inv(c, k):
@@ -1056,12 +1130,14 @@ class UpdateFromFile(Contract):
     """READER, index level: from a well-formed node (x = exactly 0..N-1, distinct arrays, well-formed records) the loop never raises
     (no KeyError on a missing dataset, no IndexError / ValueError while decoding, no duplicate key in the rebuilt dictionaries) and an
     empty database is rebuilt with exactly N points, the i-th one being x/<i>, in index order.
-    (Designed, NOT proved yet - see READER_CONTENT_CLAUSES: the names of point i are fhas(i, .), its values fval(i, .).)"""
+    CONTENT (clauses ``names`` / ``values``): the output names of the i-th point are exactly the names listed in k/<i> (fhas) and every
+    value is the decoded one (fval: the array v/arr_<i>/<j>, or the scalar of v/<i> at the rank of position j among the scalar positions)."""
 
     targets = (HDF + ".update_from_file",)
     prop = ("C11",)
     params = {"database": DBT, "file_path": TStr, "hdf_node_path": TStr}
     modifies = ("database", "database._Database__hdf_database", "ghost:calllog", "ghost:calllog_n")
+    c11_asserts = {"scalar_dict.update(names_to_arrays)": _stage_update, "database.store(array(design_vars_grp[str_index]), scalar_dict)": _stage_store}
     loops = {0: LoopSpec(anchor="range(len(design_vars_grp))", inv=_reader_inv,
                          modifies=("database", "database._Database__hdf_database", "ghost:calllog", "ghost:calllog_n"),
                          local_types={"str_index": TStr, "array_name": TStr, "keys": TList(TStr), "raw_index": TInt})}
